@@ -447,7 +447,7 @@ CHECKS["C15"] = dict(
         dict(name="harness_c15_recipes", quick={"depth": 1}, thorough={"depth": 2, "_wall": 2400}),
         dict(name="harness_c15_logic", quick={}, thorough={}),
     ],
-    anchors=["SymEngine::ccode", "SymEngine::c89code", "SymEngine::c99code", "SymEngine::CodePrinter::bvisit", "SymEngine::C89CodePrinter::_print_pow", "SymEngine::C99CodePrinter::_print_pow"],
+    anchors=["SymEngine::ccode", "SymEngine::CodePrinter::bvisit", "SymEngine::C89CodePrinter::_print_pow", "SymEngine::C99CodePrinter::_print_pow"],
     bounds="operator trees of depth <= 1 (thorough 2) over {x, y, positive p, 2, -1/2, 3, 2/3} with + - * /, integer powers {2,3,-1,-2}, rational powers {1/2,1/3,3/2,-1/2,2/3} of p, sqrt, sin, cos, tan, exp, log, sinh, cosh, tanh, atan, erf; 10 shapes with max/min, sign, abs, Piecewise (2 and 3 branches with relationals), pi, E, quotients; printers ccode, c89code, c99code at double precision; the emitted text is interpreted with C's precedence rules and integer/floating literal typing (so 1/3 would be 0) and evaluated for ALL real x, y and positive p",
     outside=["rounding error of double arithmetic and of libm (formula level, oracle D6)", "float / long double precision settings, CUDA / Metal / JavaScript printers", "the C compiler itself"],
     assumptions=["the interpreter of the C expression fragment in harness/C15.cpp implements C's grammar and usual arithmetic conversions for the constructs the printer emits", "oracle D2 (vlib/vrecipe.h)"],
